@@ -15,7 +15,7 @@ class CheckC07(core.Check):
     cfg = "A"
     rule = (
         "case = one session with 1-3 injected failing calls (every failure cause, buffers cut at every token boundary and "
-        "inside every field, altered/truncated/foreign/oversize messages, missing PSK, out-of-turn) each followed by the "
+        "inside every field, altered/truncated/foreign/oversize messages, missing PSK, out-of-turn, a counter parked on 2^64-1) each followed by the "
         "correct call, then the rest of the handshake and transport traffic, run next to a fault-free twin with identical "
         "keys and ephemerals; distinct key = (pattern+psk variant, DH, set of (step, cause class)); non-trivial = at least "
         "one injected call actually failed and at least one later output was compared with the twin"
@@ -64,7 +64,7 @@ class CheckC07(core.Check):
         h.setup(missing_a=ma, missing_b=mb, prologue=sessions.prologue_choice(rnd, 32, 64), supply=supply)
         h.handshake(paylens, plan)
         h.convert()
-        h.transport_phase(rnd, nmsgs=4, fault_rate=0.35)
+        h.transport_phase(rnd, nmsgs=4, fault_rate=0.35, exhaust=True)
         h.done()
         c.info = {"name": name}
         return c
